@@ -84,6 +84,14 @@ fn tuples(ins: &[&str]) -> Vec<Vec<Val>> {
     out
 }
 
+fn pick_sample(job: &Job, steps: usize) -> bool {
+    match job {
+        Job::Method { id, .. } => id % 40 == 0 && steps == 1,
+        Job::Props { iface, cache, .. } => *iface == 3 && *cache && steps == 3,
+        Job::Signals { iface, route, path } => *iface == 5 && *route == 1 && *path == "/bank" && steps == 2,
+    }
+}
+
 /// A finding of one evaluated step: (clause, text, step description, kind feature).
 struct Bad {
     clause: &'static str,
@@ -98,10 +106,16 @@ struct Sink<'a> {
     mode: &'static str,
     job: Job,
     bad: Vec<Bad>,
+    steps: usize,
 }
 
 impl Sink<'_> {
     fn step(&mut self, kind: &'static str, canon: &J, outcome: &str) {
+        self.steps += 1;
+        // a fixed, small selection of samples (independent of thread timing)
+        if pick_sample(&self.job, self.steps) {
+            self.report.sample(json!({"mode": self.mode, "job": self.job.to_json(), "step": canon, "outcome": outcome}));
+        }
         self.report.eval(1);
         self.report.nontrivial(hash64(&(self.mode, canon.to_string())));
         self.report.outcome(&format!("{}: {kind}: {outcome}", self.mode));
@@ -176,7 +190,7 @@ fn judge_call(sink: &mut Sink, m: &MethodDesc, path: &str, args: &[Val], res: Op
 // ---------------------------------------------------------------------------------------------
 
 fn run_async(report: &Report, job: &Job) -> Vec<(String, String)> {
-    let mut sink = Sink { report, mode: "async", job: job.clone(), bad: vec![] };
+    let mut sink = Sink { report, mode: "async", job: job.clone(), bad: vec![], steps: 0 };
     let mut b = BankWorld::new();
     let (iface, path, cache) = match job {
         Job::Method { id, path } => (METHODS[*id as usize].iface, *path, false),
@@ -536,13 +550,18 @@ fn run_blocking_once(report: &Report, job: &Job, count: bool) -> Result<Vec<Bad>
         .spawn(move || blocking_worker(j, tx))
         .unwrap_or_else(|e| vcommon::machinery_failure(&format!("C33: cannot spawn a thread: {e}")));
     let mut bad = vec![];
+    let mut steps = 0usize;
     let mut last = json!("start");
     loop {
         match rx.recv_timeout(WATCHDOG) {
             Ok(Ev::Done) => return Ok(bad),
             Ok(Ev::Begin(s)) => last = s,
             Ok(Ev::Step { kind, canon, outcome }) => {
+                steps += 1;
                 if count {
+                    if pick_sample(job, steps) {
+                        report.sample(json!({"mode": "blocking", "job": job.to_json(), "step": canon, "outcome": outcome}));
+                    }
                     report.eval(1);
                     report.nontrivial(hash64(&("blocking", canon.to_string())));
                     report.outcome(&format!("blocking: {kind}: {outcome}"));
@@ -559,7 +578,7 @@ fn run_blocking_once(report: &Report, job: &Job, count: bool) -> Result<Vec<Bad>
 }
 
 fn run_blocking(report: &Report, job: &Job) {
-    let mut sink = Sink { report, mode: "blocking", job: job.clone(), bad: vec![] };
+    let mut sink = Sink { report, mode: "blocking", job: job.clone(), bad: vec![], steps: 0 };
     match run_blocking_once(report, job, true) {
         Ok(bad) => sink.bad = bad,
         Err(at) => {
